@@ -127,6 +127,15 @@ int cmd_uci_replay(const Args& a)
 }
 
 // ---------------------------------------------------------------- C03: searches / perft leave the position untouched
+// stop injection for aborted searches: the search's own stop() is called at its k-th node visit (any node kind), so the
+// search unwinds from wherever it is - below null moves, re-searches, quiescence - and must unmake everything on the way up
+static Search* g_abort_target = nullptr;
+static long g_abort_at = 0, g_abort_seen = 0;
+static void abort_sink(const char* id, int64_t, int64_t)
+{
+    if ((id[0] == 'n' || id[0] == 'q') && g_abort_target && ++g_abort_seen == g_abort_at) g_abort_target->stop();
+}
+
 int cmd_search_preserves(const Args& a)
 {
     init_engine();
@@ -178,10 +187,35 @@ int cmd_search_preserves(const Args& a)
         std::ostringstream cap;
         auto* old = std::cout.rdbuf(cap.rdbuf());
         uci.ttable.updateEpoch(1);
+        // aborted searches (every other run): a deep limit, stopped at a drawn node visit, or a node budget
+        const bool aborted = a.i("aborted", 1) != 0 && r % 2 == 1;
+        if (aborted)
+        {
+            lim.depth = 7 + int(rng() % 6);
+            if (rng() % 4 == 0) lim.nodes = 20000 + int(rng() % 200000);
+        }
         {
             Search s(p, lim, uci.scorer, uci.ttable);
+            if (aborted && lim.nodes == 0)   // (a node budget is polled by the search itself)
+            {
+                g_abort_target = &s;
+                g_abort_seen = 0;
+                g_abort_at = 200 + long(rng() % 120000);
+                engine::verif::sink.store(abort_sink);
+            }
             s.go();
+            engine::verif::sink.store(nullptr);
+            g_abort_target = nullptr;
             std::cout.rdbuf(old);
+            // the move announced must be a move of the searched position, spelled for its side (castling is spelled from the side to move)
+            {
+                std::string outp = cap.str(), bm;
+                size_t at = outp.rfind("bestmove ");
+                if (at != std::string::npos) { std::istringstream bs(outp.substr(at + 9)); bs >> bm; }
+                bool legal = false;
+                for (int i = 0; i < mv.n; ++i) legal = legal || p.uci(mv.list[i]) == bm;
+                out.put("{\"e\":\"searched\",\"aborted\":" + jbool(aborted && g_abort_seen >= g_abort_at) + ",\"bestmove\":" + jstr(bm) + ",\"legal\":" + jbool(legal) + "}");
+            }
             out.put("{\"e\":\"donull\"}");   // bracket: the search is "make something .. unmake everything"
             out.put("{\"e\":\"undonull\"}");
             out.put(full_obs(s._position));
